@@ -34,11 +34,12 @@ import (
 )
 
 type childCfg struct {
-	Mode string // reader | loader-url | loader-file | disk-path
-	File string
-	Dir  string
-	N    int
-	PEM  bool
+	Rejected bool   // disk-path: the document is well-formed and correctly signed but must be rejected at its end
+	Mode     string // reader | loader-url | loader-file | disk-path
+	File     string
+	Dir      string
+	N        int
+	PEM      bool
 }
 
 type childOut struct {
@@ -333,7 +334,7 @@ func main() {
 		return
 	}
 	run := report.New("C17", "exploration")
-	run.Rule("cases = component{streaming reader with a counting consumer, URL loader, file loader, full disk path download->parse->store->lookup, with a second validator instance on memory storage alive in the same process} x N x encoding{DER, PEM}; each case runs in its own child process with runtime.MemProfileRate=16 KiB while a sampler forces two GCs and reads the heap profile every ~20 ms; in-use bytes are attributed by allocation site: goleveldb/snappy frames = dependency budget, any other record with a repository frame = the repository's own retention; oracle: repository-attributed in-use <= 1 MiB in every sample at every N, goleveldb-attributed <= 96 MiB, median HeapAlloc of the second half of the run <= 64 MiB, listed serials of the big CRL are rejected and an unlisted one accepted on the disk path; non-trivial = case with >= 10 samples taken while the component was making progress; distinct = case descriptor")
+	run.Rule("cases = component{streaming reader with a counting consumer, URL loader, file loader, full disk path download->parse->store->lookup (also for a list that is rejected only at its end), with a second validator instance on memory storage alive in the same process} x N x encoding{DER, PEM}; each case runs in its own child process with runtime.MemProfileRate=16 KiB while a sampler forces two GCs and reads the heap profile every ~20 ms; in-use bytes are attributed by allocation site: goleveldb/snappy frames = dependency budget, any other record with a repository frame = the repository's own retention; oracle: repository-attributed in-use <= 1 MiB in every sample at every N, goleveldb-attributed <= 96 MiB, median HeapAlloc of the second half of the run <= 64 MiB, listed serials of the big CRL are rejected and an unlisted one accepted on the disk path; non-trivial = case with >= 10 samples taken while the component was making progress; distinct = case descriptor")
 	run.Assume("all components run with a debug-level logger that discards its output, so that code which only runs when debug logging is enabled is included", "heap profile reflects the last completed GC (two forced GCs precede every read)", "goleveldb's own bounded caches and write buffers are a trusted dependency budget")
 	scratch, _ := report.Scratch("C17")
 	bin := os.Getenv("VERIF_ENGINE_BIN")
@@ -385,6 +386,17 @@ func main() {
 				_ = os.WriteFile(filepath.Join(d, "listed.json"), lb, 0644)
 				cases = append(cases, cs{childCfg{Mode: "disk-path", File: f, Dir: d, N: n, PEM: pem}, fmt.Sprintf("disk-path n=%d pem=%v", n, pem)})
 			}
+		}
+		if n == sizes[0] {
+			// the same list with an unknown critical crlExtension: it is downloaded and streamed completely and
+			// rejected only when the extensions at its end are read; the rejection path has the same bound
+			sp := gen.SpecFor(in, entries)
+			sp.Exts = append(sp.Exts, crlgen.UnknownCriticalExt())
+			rejFile := filepath.Join(scratch, fmt.Sprintf("n%d-rejected.der", n))
+			_ = os.WriteFile(rejFile, sp.Build(in.Key).DER, 0644)
+			d := mkdir()
+			_ = os.WriteFile(filepath.Join(d, "listed.json"), lb, 0644)
+			cases = append(cases, cs{childCfg{Mode: "disk-path", File: rejFile, Dir: d, N: n, Rejected: true}, fmt.Sprintf("disk-path n=%d rejected-at-the-end (unknown critical crlExtension)", n)})
 		}
 		entries = nil
 		doc = nil
@@ -518,7 +530,12 @@ func main() {
 			ok = false
 			run.Violation(comp+".entry-count", fmt.Sprintf("%s: consumer received %d of %d entries", c.desc, r.Entries, c.cfg.N), rp)
 		}
-		if comp == "disk-path" && r.Lookups != "0:true/false 1:true/false 2:true/false unlisted:false/false" {
+		if comp == "disk-path" && c.cfg.Rejected {
+			if r.Lookups != "0:false/true 1:false/true 2:false/true unlisted:false/true" {
+				ok = false
+				run.Violation(comp+".rejected-list-lookups-wrong", c.desc+": strict lookups for a list that must be rejected: "+r.Lookups, rp)
+			}
+		} else if comp == "disk-path" && r.Lookups != "0:true/false 1:true/false 2:true/false unlisted:false/false" {
 			ok = false
 			run.Violation(comp+".lookups-wrong", c.desc+": lookups after the load: "+r.Lookups, rp)
 		}
